@@ -116,6 +116,18 @@ def gen_c01(tier, seed):
         for tail in ('\n', '\r', '\x00'):
             add(call('make', base + tail, mode=m))
             add(call('make', base + tail, mode=m, micro=False))
+    # (d''') every cell of the capacity table: one character more than (v, e) holds (the symbol must be a larger one and decode completely)
+    for v in ALLV:
+        for i, e in enumerate(T.levels_of(v)):
+            ms = [m for m in ('byte', 'numeric', 'alphanumeric', 'kanji') if T.ccbits(v, m) >= 0]
+            for mode in (ms if thorough else [ms[(v + i) % len(ms)]]):
+                n = T.max_chars(v, e, mode) + 1
+                kw = {'error': e, 'boost_error': False} if e != '-' else {}
+                if v < 1:
+                    kw['micro'] = None
+                else:
+                    kw['micro'] = False
+                add(call('make', gen.content_for_mode(r, mode, n), **kw))
     # (e) hanzi
     for n in list(range(1, 13)) + [20, 50]:
         for e in QR_LEVELS if thorough else ('L', 'Q'):
@@ -400,6 +412,16 @@ def gen_c02(tier, seed):
     return calls
 
 
+def c02_sequence_calls(r):
+    """the symbols of sequences are symbols too: version only, symbol_count only, and both (the version is then re-computed)"""
+    res = []
+    for n, kw in ((111, {'version': 5, 'symbol_count': 2}), (111, {'version': 5}), (111, {'symbol_count': 2}), (40, {'version': 3, 'symbol_count': 3}),
+                  (300, {'version': 10, 'symbol_count': 4}), (30, {'version': 1}), (500, {'version': 7, 'symbol_count': 5, 'error': 'Q'}),
+                  (20, {'version': 2, 'symbol_count': 1}), (60, {'version': 4, 'symbol_count': 2, 'error': 'H', 'boost_error': False})):
+        res.append(call('make_sequence', gen.latin1(r, n), **kw))
+    return res
+
+
 def key_c02(o, v):
     f = v['facts']
     return ('C02', f['v'], f['level'], f['mask']) if 'v' in f else None
@@ -409,6 +431,12 @@ def run_c02(rep, tier):
     calls = gen_c02(tier, common.seed())
     rep.evaluations = len(calls)
     obs = symobs.observe_many(calls, props=['C02'])
+    for c in c02_sequence_calls(gen.rng(common.seed(), 'C02', 'seq')):
+        so = symobs.observe_sequence_symbols(c, props=['C02'])
+        for o in so:
+            o['exp']['parts'] = []          # the payload of one symbol of a sequence is C08's business
+        obs += so
+        rep.evaluations += 1
     note_refusals(rep, obs)
     engine.judge_symbols(rep, obs, {'C02'}, key_c02, sample_sym)
     triples = {k for k in rep.keys}
